@@ -10,7 +10,8 @@ The lexical subset on which `Tokenizer().parse` is compared with CPython's `toke
   * names `[A-Za-z_][A-Za-z0-9_]*` (keywords included);
   * numbers: decimal ints without leading zeros, floats `D.D` / `D.` (no leading dot, exponent, underscore, suffix, radix);
   * strings: prefix '' / r / f, quotes ' / " / triple-double, any printable content, `\\x` escapes, newlines inside triple quotes,
-    replacement fields inside f-strings (re-joined on the CPython side); not: ''' strings, upper-case or combined
+    replacement fields inside f-strings (re-joined on the CPython side), even backslash runs and escaped quotes right before the
+    closing quote (the former F8 classes, repaired in efe3cdf); not: ''' strings, upper-case or combined
     prefixes, nested same-kind quotes inside f-string fields;
   * operators: every single-character symbol Python has (@ . , : ; ( ) { } [ ] = - + * / % & | ^ ~ < >) and the combined
     symbols TokenDefinition lists that Python also has (-= += *= /= %= &= |= ^= == != <= >= << >> -> ** := ...);
